@@ -379,6 +379,36 @@ def rule_saturation(ctx, F):
     ctx.floor("functions with a local saturated to UINT32_MAX", n, 5)
 
 
+def rule_diff_cursor(ctx, F):
+    """P7: the cursor into the included-range differences (which vetoes reuse of nodes whose text changed
+    inclusion) only moves past a difference that ends at or before the parse position; the reuse test
+    starts looking at that cursor."""
+    from C06 import incs
+    fn = ctx.need_fn(F, "ts_parser_parse", "P7")
+    if fn:
+        adv = incs(fn, "self->included_range_difference_index")
+        ctx.floor("advances of the range-difference cursor in ts_parser_parse", len(adv), 1)
+        ctx.gate("P7", fn, adv, [("a difference range is passed only when it ends at or before the parse position", "range->end_byte <= position", True)], accept_desc="moving past a difference range")
+        z = [pt for pt, n in find(fn, "self->included_range_difference_index = 0")]
+        if z:
+            ctx.ok("P7", "ts_parser_parse:cursor-starts-at-zero", "a parse with an old tree starts the range-difference cursor at 0")
+        else:
+            ctx.bad("P7", "ts_parser_parse:cursor-starts-at-zero", "ts_parser_parse no longer resets included_range_difference_index to 0 when a new parse starts")
+    fn = ctx.need_fn(F, "ts_parser__has_included_range_difference", "P7")
+    if fn:
+        if find(fn, "ts_range_array_intersects(&self->included_range_differences, self->included_range_difference_index, start_position, end_position)"):
+            ctx.ok("P7", "has_included_range_difference:searches-from-cursor", "the reuse veto searches the differences from the cursor with the node's own span")
+        else:
+            ctx.bad("P7", "has_included_range_difference:searches-from-cursor", "ts_parser__has_included_range_difference no longer searches included_range_differences from the cursor for [start_position, end_position)")
+    fn = ctx.need_fn(F, "ts_range_array_intersects", "P7")
+    if fn:
+        rt = [pt for pt, e in fn.points() if e.get("k") == "ret" and strip(e["e"]).get("k") == "int" and strip(e["e"]).get("v") == 1]
+        ctx.gate("P7", fn, rt, [("a difference intersects only if it ends after the span starts", "range->end_byte > start_byte", True), ("…and starts before the span ends", "range->start_byte >= end_byte", False)],
+                 accept_desc="reporting an intersection")
+        rf = [pt for pt, e in fn.points() if e.get("k") == "ret" and strip(e["e"]).get("k") == "int" and strip(e["e"]).get("v") == 0]
+        ctx.floor("`no intersection` returns of ts_range_array_intersects", len(rf), 1)
+
+
 def run(ctx):
     for cfg in configs(ctx):
         ctx.config = cfg
@@ -388,6 +418,7 @@ def run(ctx):
         rules_pairing(ctx, F)
         rules_gate_state(ctx, F)
         rule_saturation(ctx, F)
+        rule_diff_cursor(ctx, F)
     import rsrules
     rsrules.c01_rust(ctx)
     return ctx.finish(
